@@ -91,8 +91,13 @@ func genC04(r *Rng) *Scenario {
 	}
 	hasHandler := r.chance(0.8)
 	if hasHandler {
-		sc.Ops = append(sc.Ops, Op{AtUs: 0, Actor: 1, Kind: "handle", Handler: 1})
+		h := 1
+		if r.chance(0.25) {
+			h = 3 // a handler that publishes through the client it was called by
+		}
+		sc.Ops = append(sc.Ops, Op{AtUs: 0, Actor: 1, Kind: "handle", Handler: h})
 	}
+	emptyUsed := false
 	sc.Ops = append(sc.Ops, Op{AtUs: 1, Actor: 0, Kind: "connect"})
 	t := rtt(cfg) + 10
 	if hasHandler && r.chance(0.3) {
@@ -118,6 +123,10 @@ func genC04(r *Rng) *Scenario {
 			if r.chance(0.15) {
 				o.Pkt.ID = uint16(r.between(4, 9)) // unknown id
 			}
+		}
+		if o.Pkt.Type == TPublish && !emptyUsed && r.chance(0.1) {
+			o.Pkt.Pay = "" // a legal zero-length payload (one per run: it is its own identity)
+			emptyUsed = true
 		}
 		sc.Script = append(sc.Script, o)
 	}
@@ -534,6 +543,7 @@ func C11Matrix() []c11Cell {
 		cells = append(cells, c11Cell{"disconnect", "before", ca})
 	}
 	cells = append(cells, c11Cell{"connect", "after-disconnect", "none"})
+	cells = append(cells, c11Cell{"disconnect", "during-close", "peereof"}, c11Cell{"publish1", "during-close", "peereof"})
 	// Connect / Disconnect of the reconnecting client
 	for _, st := range []string{"dialparked", "connack", "backoff"} {
 		for _, ca := range []string{"cancel", "deadline"} {
@@ -707,6 +717,15 @@ func genC11Cell(r *Rng, cell c11Cell) *Scenario {
 		return sc
 	}
 	sc.Ops = append(sc.Ops, Op{AtUs: 0, Actor: 0, Kind: "connect"})
+	if cell.step == "during-close" {
+		// the peer closes; the client's own Transport.Close() takes 500 us to
+		// return; the call lands in the middle of it
+		cfg.Yields = map[string]int64{"app.transportClose": 500}
+		sc.Faults = append(sc.Faults, Fault{Kind: "cutAt", Conn: 1, AtUs: 2000})
+		sc.Ops = append(sc.Ops, c11Op(cell.call, 2200, 1, "m1"))
+		sc.HorizonUs, sc.EndUs = 8000, 10000
+		return sc
+	}
 	call := c11Op(cell.call, 1000, 1, "m1")
 	switch cell.step {
 	case "before":
@@ -754,11 +773,28 @@ func genC11(r *Rng, prop string) *Scenario {
 	if r.chance(0.3) {
 		sc.Script = append(sc.Script, Out{Conn: 1, AtUs: t + 300, Kind: "release", Held: 0})
 	}
+	if r.chance(0.3) {
+		// inbound traffic handled by a handler that calls back into the client
+		sc.Ops = append([]Op{{AtUs: 0, Actor: 50, Kind: "handle", Handler: 3}}, sc.Ops...)
+		q := byte(r.IntN(3))
+		p := &Pkt{Type: TPublish, QoS: q, Topic: "a/x", Pay: "inre"}
+		if q > 0 {
+			p.ID = 77
+		}
+		sc.Script = append(sc.Script, Out{Conn: 1, AtUs: t + 200, Kind: "pkt", Pkt: p})
+		if q == 2 {
+			sc.Script = append(sc.Script, Out{Conn: 1, AtUs: t + 350, Kind: "pkt", Pkt: &Pkt{Type: TPubRel, ID: 77}})
+		}
+	}
 	causes := []string{"cancel", "deadline", "localclose", "peereof", "peerreset", "malformed", "disconnect"}
 	tc := t + r.between(400, 3000)
-	applyCause(sc, causes[r.IntN(len(causes))], tc, 1+r.IntN(n), r)
+	off := 1
+	if sc.Ops[0].Kind == "handle" {
+		off = 2
+	}
+	applyCause(sc, causes[r.IntN(len(causes))], tc, off+r.IntN(n), r)
 	if r.chance(0.4) {
-		applyCause(sc, causes[r.IntN(len(causes))], tc+r.between(0, 500), 1+r.IntN(n), r)
+		applyCause(sc, causes[r.IntN(len(causes))], tc+r.between(0, 500), off+r.IntN(n), r)
 	}
 	sc.HorizonUs = tc + 6000
 	sc.EndUs = sc.HorizonUs + 2000
@@ -871,7 +907,7 @@ func genC15(r *Rng) *Scenario {
 	cfg := &sc.Cfg
 	cfg.HoldAcks = true
 	cfg.LatC2BUs, cfg.LatB2CUs = 50, 50
-	switch r.IntN(6) {
+	switch r.IntN(7) {
 	case 0:
 		cfg.InitIDs = []uint32{0xFFFF - uint32(r.IntN(30))}
 	case 1:
@@ -880,6 +916,8 @@ func genC15(r *Rng) *Scenario {
 		cfg.InitIDs = []uint32{0xFFFD}
 	case 3:
 		cfg.InitIDs = []uint32{0x1FFF0 + uint32(r.IntN(16))}
+	case 4:
+		cfg.InitIDs = []uint32{0xFFFFFFF0 + uint32(r.IntN(16))} // the 32-bit counter itself overflows
 	}
 	sc.Ops = append(sc.Ops, Op{AtUs: 0, Actor: 0, Kind: "connect"})
 	t := rtt(cfg) + 50
